@@ -13,7 +13,8 @@ import (
 
 type cxnAnchors struct {
 	queueFn   *ssa.Function // sends a state-change event on the connection's channel
-	readFn    *ssa.Function // calls net.Conn.Read
+	readFn    *ssa.Function // the wait-state handler: called from the run loop, reaches the socket read
+	rawReadFn *ssa.Function // contains the call of net.Conn.Read (the handler itself or a helper of it)
 	writeFn   *ssa.Function // calls net.Conn.Write (the per-command goroutine)
 	writeCall ssa.CallInstruction
 	runFn     *ssa.Function // the state machine loop (receives from the channel)
@@ -58,6 +59,7 @@ func (c *Ctx) cxn() *cxnAnchors {
 			case ssa.CallInstruction:
 				if isConnMethod(x, "Read") && (recvCxn || enclosingRecv(c, fn)) {
 					a.readFn = fn
+					a.rawReadFn = fn
 				}
 				if isConnMethod(x, "Write") && enclosingRecv(c, fn) {
 					a.writeFn, a.writeCall = fn, x
@@ -77,6 +79,17 @@ func (c *Ctx) cxn() *cxnAnchors {
 	}
 	if len(a.errs) > 0 {
 		return a
+	}
+	// the wait-state handler is the function the run loop calls that reaches the raw socket read (the read may have
+	// been moved into a helper of the handler)
+	if a.runFn != nil && a.rawReadFn != nil {
+		for _, in := range instrsOf(a.runFn) {
+			if call, ok := in.(*ssa.Call); ok {
+				if g := call.Call.StaticCallee(); g != nil && g != a.rawReadFn && c.InPkg(g) && c.M.Reach(g)[a.rawReadFn] {
+					a.readFn = g
+				}
+			}
+		}
 	}
 	// state constants: in the run loop, the comparison that guards the call of readFn / of the function that starts writeFn
 	var dispatchStarter *ssa.Function
@@ -233,6 +246,27 @@ func ruleC01Rearm(c *Ctx) {
 			}
 		}
 	}
+	if a.rawReadFn != a.readFn {
+		inHandler := map[*ssa.Function]bool{}
+		for _, f := range c.helperClosure(a.readFn, 3) {
+			inHandler[f] = true
+		}
+		for _, fn := range c.SrcFuncs() {
+			for _, in := range instrsOf(fn) {
+				call, ok := in.(*ssa.Call)
+				if !ok || call.Call.StaticCallee() != a.rawReadFn {
+					continue
+				}
+				nRead++
+				key := fmt.Sprintf("%s:calls-reader#%d", fnName(fn), nRead)
+				if inHandler[fn] {
+					c.S.OK("R-C01-rearm", key, c.Pos(call.Pos()), "the socket read helper is called from the wait-state handler only")
+				} else {
+					c.S.Bad("R-C01-rearm", key, c.Pos(call.Pos()), fmt.Sprintf("%s reads the socket outside the wait-state handler: two readers can consume the request stream", fnName(fn)))
+				}
+			}
+		}
+	}
 	// (4) no function both dispatches a command and re-arms the read on one path
 	for _, fn := range c.SrcFuncs() {
 		ds, rs := a.queueCalls(fn, a.dispState), a.queueCalls(fn, a.waitState)
@@ -289,7 +323,7 @@ func ruleC01Consume(c *Ctx) {
 					} else {
 						c.S.Bad("R-C01-consume", key, c.Pos(st.Pos()), "the buffer is advanced by a length that is not the one the parser returned for the value being dispatched: bytes of the next command are dropped or re-parsed")
 					}
-				} else if freshBuffer(v.X) {
+				} else if freshBuffer(v.X) || freshSliceEverywhere(c, v.X, 0) {
 					c.S.OK("R-C01-consume", key, c.Pos(st.Pos()), "first chunk: slice of the read buffer")
 				} else if mk, isMk := v.X.(*ssa.MakeSlice); isMk {
 					_ = mk
@@ -334,6 +368,40 @@ func ruleC01Consume(c *Ctx) {
 	if n == 0 {
 		c.S.OK("R-C01-consume", "parser-local", c.Pos(a.parseFn.Pos()), "no *respDeserializer is stored in a field or global; the parser is rebuilt over the accumulated buffer")
 	}
+}
+
+// freshSliceEverywhere: a buffer that is newly allocated for this use — in this function, or (a parameter) at every
+// static call site. A buffer kept in a field and reused across reads is not fresh: the pending input would alias it.
+func freshSliceEverywhere(c *Ctx, v ssa.Value, depth int) bool {
+	if depth > 3 {
+		return false
+	}
+	switch x := v.(type) {
+	case *ssa.MakeSlice, *ssa.Alloc:
+		return true
+	case *ssa.Slice:
+		return freshSliceEverywhere(c, x.X, depth)
+	case *ssa.Parameter:
+		fn := x.Parent()
+		idx := -1
+		for i, q := range fn.Params {
+			if q == x {
+				idx = i
+			}
+		}
+		node := c.CG.Nodes[fn]
+		if node == nil || idx < 0 || len(node.In) == 0 {
+			return false
+		}
+		for _, e := range node.In {
+			cc := e.Site.Common()
+			if cc.IsInvoke() || idx >= len(cc.Args) || !freshSliceEverywhere(c, cc.Args[idx], depth+1) {
+				return false
+			}
+		}
+		return true
+	}
+	return false
 }
 
 // freshBuffer: a slice of a buffer allocated in this function (make / array literal).
@@ -428,59 +496,221 @@ const textLenPrefix = "R-C01-lenprefix: in every length-prefixed emitter ($ bulk
 
 func ruleC01LenPrefix(c *Ctx) {
 	c.S.Rule("R-C01-lenprefix", textLenPrefix, 3)
-	n := 0
-	for _, fn := range c.SrcFuncs() {
-		for _, in := range instrsOf(fn) {
-			call, ok := in.(*ssa.Call)
-			if !ok || fullCalleeName(call) != "fmt.Sprintf" || len(call.Call.Args) < 2 {
-				continue
+	// the serializer: the type switch over a reply's data that returns nothing (it writes), and what it reaches
+	scope := map[*ssa.Function]bool{}
+	for _, sw := range c.respDataSwitches() {
+		if sw.fn.Signature.Recv() == nil || sw.fn.Signature.Results().Len() != 0 {
+			continue
+		}
+		scope[sw.fn] = true
+		for f := range c.M.Reach(sw.fn) {
+			if c.InPkg(f) {
+				scope[f] = true
 			}
-			format, ok := constString(call.Call.Args[0])
-			if !ok || len(format) < 3 || !strings.ContainsRune("$!=", rune(format[0])) || format[1:3] != "%d" {
-				continue
+		}
+	}
+	if len(scope) == 0 {
+		c.S.Undecided("R-C01-lenprefix", "serializer", "-", "the serializer (a type switch over respValue.data that writes) was not found")
+		return
+	}
+	isBlob := func(t types.Type) bool {
+		switch u := t.Underlying().(type) {
+		case *types.Basic:
+			return u.Kind() == types.String
+		case *types.Slice:
+			b, ok := u.Elem().Underlying().(*types.Basic)
+			return ok && b.Kind() == types.Byte
+		}
+		return false
+	}
+	// strip conversions between string / []byte / named string types
+	var base func(v ssa.Value) ssa.Value
+	base = func(v ssa.Value) ssa.Value {
+		for i := 0; i < 6; i++ {
+			switch x := v.(type) {
+			case *ssa.Convert:
+				v = x.X
+			case *ssa.ChangeType:
+				v = x.X
+			case *ssa.MakeInterface:
+				v = x.X
+			default:
+				return v
 			}
-			n++
-			key := fmt.Sprintf("%s:%q", fnName(fn), format[:3])
-			// varargs: slice of an alloc'd array; collect stores by index
-			elems := map[int64]ssa.Value{}
-			if sl, ok := call.Call.Args[1].(*ssa.Slice); ok {
-				if al, ok := sl.X.(*ssa.Alloc); ok {
-					for _, rr := range referrers(al) {
-						ia, ok := rr.(*ssa.IndexAddr)
-						if !ok {
-							continue
+		}
+		return v
+	}
+	// is the value rendered as text / written by this function?
+	arith := false
+	flowsToOutput := func(fn *ssa.Function, v ssa.Value) bool {
+		seen := map[ssa.Value]bool{}
+		var rec func(x ssa.Value, d int) bool
+		rec = func(x ssa.Value, d int) bool {
+			if seen[x] || d > 8 {
+				return false
+			}
+			seen[x] = true
+			for _, r := range referrers(x) {
+				switch u := r.(type) {
+				case *ssa.Convert:
+					if rec(u, d+1) {
+						return true
+					}
+				case *ssa.ChangeType:
+					if rec(u, d+1) {
+						return true
+					}
+				case *ssa.MakeInterface:
+					if rec(u, d+1) {
+						return true
+					}
+				case *ssa.BinOp:
+					if b, isBasic := u.Type().Underlying().(*types.Basic); isBasic && b.Info()&types.IsInteger != 0 {
+						if rec(u, d+1) {
+							arith = true // the length is adjusted arithmetically before it is rendered
+							return true
 						}
-						idx, _ := constInt(ia.Index)
-						for _, r3 := range referrers(ia) {
-							if st, ok := r3.(*ssa.Store); ok && st.Addr == ia {
-								elems[idx] = st.Val
+						continue
+					}
+					if u.Op == token.ADD && rec(u, d+1) {
+						return true
+					}
+				case *ssa.Store:
+					// element of a varargs array
+					if ia, ok := u.Addr.(*ssa.IndexAddr); ok && u.Val == x {
+						if al, ok := ia.X.(*ssa.Alloc); ok {
+							for _, r2 := range referrers(al) {
+								if sl, ok := r2.(*ssa.Slice); ok {
+									for _, r3 := range referrers(sl) {
+										if _, ok := r3.(ssa.CallInstruction); ok {
+											return true
+										}
+									}
+								}
 							}
 						}
 					}
-				}
-			}
-			lenArg, payload := elems[0], elems[1]
-			okLen := false
-			if lenArg != nil && payload != nil {
-				lv := stripValue(lenArg)
-				if lc, ok := lv.(*ssa.Call); ok {
-					if b, ok := lc.Call.Value.(*ssa.Builtin); ok && b.Name() == "len" {
-						if stripValue(lc.Call.Args[0]) == stripValue(payload) {
-							okLen = true
+				case ssa.CallInstruction:
+					name := fullCalleeName(u)
+					if u.Common().IsInvoke() {
+						name = u.Common().Method.Name()
+					}
+					if strings.Contains(name, "Write") || strings.HasPrefix(name, "strconv.") || strings.HasPrefix(name, "fmt.") {
+						if strings.HasPrefix(name, "strconv.") {
+							if v2, ok := u.(ssa.Value); ok && rec(v2, d+1) {
+								return true
+							}
+							continue
 						}
+						return true
+					}
+					// a package helper that writes its argument
+					if g := u.Common().StaticCallee(); g != nil && c.InPkg(g) && scope[g] {
+						return true
 					}
 				}
 			}
-			if okLen {
-				c.S.OK("R-C01-lenprefix", key, c.Pos(call.Pos()), "length operand is len() of the payload operand")
+			return false
+		}
+		return rec(v, 0)
+	}
+	n := 0
+	for fn := range scope {
+		if len(fn.Blocks) == 0 {
+			continue
+		}
+		k := 0
+		for _, in := range instrsOf(fn) {
+			lc, ok := in.(*ssa.Call)
+			if !ok {
+				continue
+			}
+			b, ok := lc.Call.Value.(*ssa.Builtin)
+			if !ok || b.Name() != "len" || !isBlob(lc.Call.Args[0].Type()) {
+				continue
+			}
+			arith = false
+			if !flowsToOutput(fn, lc) {
+				continue // a length used for something else (a comparison, an allocation)
+			}
+			adjusted := arith
+			n++
+			k++
+			key := fmt.Sprintf("%s:len-prefix#%d", fnName(fn), k)
+			payload := base(lc.Call.Args[0])
+			written := false
+			// the same value (modulo conversions) reaches the output of this function
+			cands := []ssa.Value{payload}
+			for _, r := range referrers(payload) {
+				if v2, ok := r.(ssa.Value); ok {
+					switch r.(type) {
+					case *ssa.Convert, *ssa.ChangeType:
+						cands = append(cands, v2)
+					}
+				}
+			}
+			for _, cv := range cands {
+				for _, r := range referrers(cv) {
+					if r == ssa.Instruction(lc) {
+						continue
+					}
+					switch u := r.(type) {
+					case *ssa.Call:
+						if bb, ok := u.Call.Value.(*ssa.Builtin); ok && bb.Name() == "len" {
+							continue
+						}
+					}
+				}
+				if flowsToOutputExcept(cv, lc, flowsToOutput, fn) {
+					written = true
+				}
+			}
+			if adjusted {
+				c.S.Bad("R-C01-lenprefix", key, c.Pos(lc.Pos()), fmt.Sprintf("%s renders a length that is computed from len() by arithmetic: the prefix is not the length of the payload written", fnName(fn)))
+			} else if written {
+				c.S.OK("R-C01-lenprefix", key, c.Pos(lc.Pos()), "the rendered length is len() of a value this function also writes")
 			} else {
-				c.S.Bad("R-C01-lenprefix", key, c.Pos(call.Pos()), fmt.Sprintf("%s: the length written in front of the payload is not len() of that payload: the client mis-frames every following reply", fnName(fn)))
+				c.S.Bad("R-C01-lenprefix", key, c.Pos(lc.Pos()), fmt.Sprintf("%s renders len() of a value that it does not write itself: the length in front of a payload is not the length of that payload, and the client mis-frames every following reply", fnName(fn)))
 			}
 		}
 	}
 	if n < 3 {
-		c.S.Undecided("R-C01-lenprefix", "emitters", "-", fmt.Sprintf("only %d length-prefixed emitters found", n))
+		c.S.Undecided("R-C01-lenprefix", "emitters", "-", fmt.Sprintf("only %d rendered payload lengths found in the serializer", n))
 	}
+}
+
+// flowsToOutputExcept: v reaches the output through some use other than the len() call itself.
+func flowsToOutputExcept(v ssa.Value, lenCall *ssa.Call, flows func(*ssa.Function, ssa.Value) bool, fn *ssa.Function) bool {
+	for _, r := range referrers(v) {
+		if r == ssa.Instruction(lenCall) {
+			continue
+		}
+		switch u := r.(type) {
+		case *ssa.Call:
+			if b, ok := u.Call.Value.(*ssa.Builtin); ok && b.Name() == "len" {
+				continue
+			}
+			name := fullCalleeName(u)
+			if u.Call.IsInvoke() {
+				name = u.Call.Method.Name()
+			}
+			if strings.Contains(name, "Write") || strings.HasPrefix(name, "fmt.") {
+				return true // handed to a writer
+			}
+			if g := u.Call.StaticCallee(); g != nil && g.Pkg == fn.Pkg && g.Signature.Results().Len() == 0 {
+				return true // handed to a package helper that emits it
+			}
+		case *ssa.Convert, *ssa.ChangeType, *ssa.MakeInterface, *ssa.BinOp:
+			if flows(fn, u.(ssa.Value)) {
+				return true
+			}
+		case *ssa.Store:
+			if flows(fn, v) {
+				return true
+			}
+		}
+	}
+	return false
 }
 
 const textLine = "R-C01-line: simple-string and error replies are line-oriented: the emitter that writes them strips or replaces CR and LF (centrally), or no reply of those kinds embeds bytes taken from the request"
